@@ -79,6 +79,16 @@ CHECKS = {
                      'touches no kernel state; complete grid of (trigger x side x request/response x 25 error/omission edits); '
                      'each NEWSA of each enumerated history refused once.',
                 note='only NEWSA refusals are injected; the kernel is a model interpreting the real request bytes'),
+    'C08': dict(level='exploration', design='3 C08',
+                technique='Hypothesis-generated delivery schedules (duplicate, reorder, drop, stale replay, retransmission ticks) '
+                          'of authentic traffic through the real main_loop; oracle = harness-side Message-ID window model built '
+                          'from clear headers + snapshot equality + byte-identical cached replies; emission rules checked on '
+                          'every datagram with session knowledge from a reference observer',
+                text='Every duplicate / stale / out-of-window request and every unmatched response must leave state, counters, '
+                     'CHILD_SAs, caches, SAD, netlink log and table unchanged; previous-ID requests get the byte-identical stored '
+                     'reply; request IDs consecutive with one outstanding, retransmissions identical; header version, SPIs, '
+                     'exchange type and I/R flags right for every emitted message, across IKE_SA rekeys.',
+                note='IKE_SA_INIT retries are outside the window clauses; the DPD deadline is excluded from "unchanged"'),
 }
 
 NOT_YET = 'check not built yet in this session (planned, see DESIGN.md section 8)'
